@@ -356,13 +356,13 @@ NODIR_FILE = "nodir/dst.bin"  # shape 'nodir': the directory of the destination 
 def dest_path_requested(c) -> str:
     if c["shape"] == "nodir":
         return NODIR_FILE
-    return DST_DIR if c["shape"] in ("dir", "dir_existing") else DST_FILE
+    return DST_DIR if c["shape"] in ("dir", "dir_existing", "dir_dir") else DST_FILE
 
 
 def dest_path_resolved(c) -> str:
     if c["shape"] == "nodir":
         return NODIR_FILE
-    return os.path.join(DST_DIR, os.path.basename(SRC_PATH)) if c["shape"] in ("dir", "dir_existing") else DST_FILE
+    return os.path.join(DST_DIR, os.path.basename(SRC_PATH)) if c["shape"] in ("dir", "dir_existing", "dir_dir") else DST_FILE
 
 
 def prepare_files(c, vfs_s=None, vfs_d=None):
@@ -384,12 +384,16 @@ def prepare_files(c, vfs_s=None, vfs_d=None):
         elif c["shape"] == "dir_existing":  # directory destination that already holds a longer file of that name
             with open(dest_path_resolved(c), "wb") as f:
                 f.write(b"\xdd" * (c["size"] + 3))
+        elif c["shape"] == "dir_dir":  # directory destination that holds a *directory* with the source file's base name
+            os.makedirs(os.path.join(DST_DIR, os.path.basename(SRC_PATH)), exist_ok=True)
     else:
         vfs_d.mkdirs("out")
         if c["shape"] == "existing":
             vfs_d.put(DST_FILE, b"\xee" * (c["size"] + 3))
         elif c["shape"] == "dir_existing":
             vfs_d.put(dest_path_resolved(c), b"\xdd" * (c["size"] + 3))
+        elif c["shape"] == "dir_dir":
+            vfs_d.mkdirs(os.path.join(DST_DIR, os.path.basename(SRC_PATH)))
     return data
 
 
